@@ -1,86 +1,180 @@
 ---------------------------- MODULE ReceiverLocks ----------------------------
-(* C16 -- announce.Receiver shutdown at the granularity of its critical sections (no pubsub
-   topic).  Threads run short programs of API calls; every lock / unlock / channel operation
-   is one step, so TLC explores every interleaving of Close with Direct, Next and UncacheCid.
+(* C16 -- announce.Receiver shutdown at the granularity of its lock, unlock and channel steps,
+   with and without the pubsub watcher goroutine.  Threads make API calls (the operation of each
+   call is chosen when it starts); every step between two yield hooks of the code is one action,
+   so TLC explores every interleaving of Close with Direct, Next, UncacheCid and the watcher, and
+   the same actions validate traces recorded from the real Receiver (ReceiverLocksTrace.tla).
 
-     Close   : c0 Lock -> c1 (closed? -> [unlock] return nil | closed := TRUE) -> c2 Unlock
-               -> c3 close(done) -> return nil
-     Direct  : d0 allow filter -> d1 Lock -> d2 (closed? -> unlock, ErrClosed | update filter)
-               -> d3 Unlock -> d4 select { out <- msg : nil | <-done : ErrClosed }
+     Close   : c0 Lock -> c1 (closed? -> unlock, return nil | closed := TRUE [, c2 cancel subscription], unlock)
+               -> c3 close(done) -> [watcher: c4 cancel the watcher's context -> c5 <-watchDone] -> return nil
+     Direct  : (allow filter: not allowed -> return nil) d1 Lock -> d2 (closed? -> unlock, ErrClosed |
+               duplicate -> unlock, nil | unlock) -> d3 -> d4 select { out <- msg : nil | <-done : ErrClosed }
      Next    : n0 select { <-out : msg | <-done : ErrClosed }
-     Uncache : u0 Lock -> u1 remove, Unlock -> return
+     Uncache : u0 Lock -> u1 remove, unlock -> return
+     Watcher : loop -> next: subscription.Next { message -> got | cancelled -> exit | other error -> restart }
+               got (from an allowed peer; otherwise gotno -> loop) Lock -> check (closed -> unlock, exit | duplicate ->
+               unlock, loop | unlock) -> send -> select { out <- msg : loop | <-done, ctx : exit }
+               exit: close(watchDone);   restart: Lock -> new subscription, unlock -> loop
+
+   The out channel has capacity 1 and Go's hand-off semantics: a send completes into the buffer or straight into a
+   waiting receiver; a receive from a full buffer lets a blocked sender's message move into the buffer.  (The
+   hand-offs are what makes the order in which two woken goroutines report their return irrelevant.)
 
    FIXED = FALSE is the pinned code: the early return of a repeated Close keeps the mutex.
+   UNLOCK = "deferred" is a plausible "hardening" of Close (defer Unlock right after Lock): the mutex is then
+   held while Close waits for the watcher, which may be waiting for the mutex.
 
-   Properties: once some Close has returned every call ever started returns (Termination, under
-   weak fairness of the threads); result table (ResultsOK); the mutex is free whenever no call
-   is inside a critical section (MutexReleased).                                              *)
+   Properties: once some Close has been called every call ever started returns and the watcher exits
+   (Termination, under weak fairness of every thread and the watcher); result table (ResultsOK); the mutex
+   is free whenever nobody is inside a critical section (MutexReleased).                               *)
 EXTENDS Integers, Sequences, FiniteSets, TLC
 
-CONSTANTS Threads, MaxCalls, FIXED
+CONSTANTS Threads,      \* API callers (positive integers)
+          MaxCalls,     \* calls per thread
+          FIXED, UNLOCK,
+          Watcher,      \* BOOLEAN: the receiver has a libp2p host and a topic, so a watcher goroutine runs
+          MaxMsgs,      \* pubsub messages that may arrive
+          MaxRestarts,  \* spurious subscription errors (restart path of the watcher)
+          Resend        \* BOOLEAN: direct announcements are re-published on the topic (and come back to the watcher)
+W == 0 - 1              \* the watcher's identity as a mutex holder
 Ops == {"close", "directOk", "directNo", "next", "uncache"}
-Programs == UNION {[1..n -> Ops] : n \in 0..MaxCalls}
 
-VARIABLES prog, pcs, ip, mutex, closed, done, out, res, closeReturned, startedAfterClose
-vars == <<prog, pcs, ip, mutex, closed, done, out, res, closeReturned, startedAfterClose>>
+VARIABLES pcs, op, ncalls, mutex, closed, done, out, res, closeCalled, closeReturned, startedAfterClose,
+          wpc, msgs, published, restarts, subCancelled, watchCancelled, watchDone
+vars == <<pcs, op, ncalls, mutex, closed, done, out, res, closeCalled, closeReturned, startedAfterClose,
+          wpc, msgs, published, restarts, subCancelled, watchCancelled, watchDone>>
+wvars == <<wpc, msgs, published, restarts>>
 
-Init == /\ prog \in [Threads -> Programs]
-        /\ \E t \in Threads : Len(prog[t]) >= 1 /\ prog[t][1] = "close"
-        /\ pcs = [t \in Threads |-> "idle"] /\ ip = [t \in Threads |-> 1]
+Init == /\ pcs = [t \in Threads |-> "idle"] /\ op = [t \in Threads |-> "none"] /\ ncalls = [t \in Threads |-> 0]
         /\ mutex = 0 /\ closed = FALSE /\ done = FALSE /\ out = 0
-        /\ res = [t \in Threads |-> <<>>] /\ closeReturned = FALSE
+        /\ res = [t \in Threads |-> <<>>] /\ closeCalled = FALSE /\ closeReturned = FALSE
         /\ startedAfterClose = [t \in Threads |-> FALSE]
+        /\ wpc = (IF Watcher THEN "loop" ELSE "none") /\ msgs = 0 /\ published = 0 /\ restarts = 0
+        /\ subCancelled = FALSE /\ watchCancelled = FALSE /\ watchDone = FALSE
 
-Op(t) == prog[t][ip[t]]
-Return(t, r) == /\ res' = [res EXCEPT ![t] = Append(@, [op |-> Op(t), r |-> r, late |-> startedAfterClose[t]])]
-                /\ ip' = [ip EXCEPT ![t] = @ + 1] /\ pcs' = [pcs EXCEPT ![t] = "idle"]
-                /\ closeReturned' = (closeReturned \/ Op(t) = "close")
-Goto(t, l) == pcs' = [pcs EXCEPT ![t] = l] /\ UNCHANGED <<ip, res, closeReturned>>
+Ret(t, r, P) == /\ res' = [res EXCEPT ![t] = Append(@, [op |-> op[t], r |-> r, late |-> startedAfterClose[t]])]
+                /\ pcs' = [P EXCEPT ![t] = "idle"]
+                /\ closeReturned' = (closeReturned \/ op[t] = "close")
+Return(t, r) == Ret(t, r, pcs)
+Receivers == {t \in Threads : pcs[t] = "n0"}       \* in Next's select
+SendersT == {t \in Threads : pcs[t] = "d4"}        \* in handleAnnounce's select
+Goto(t, l) == pcs' = [pcs EXCEPT ![t] = l] /\ UNCHANGED <<res, closeReturned>>
 
-Start(t) == /\ pcs[t] = "idle" /\ ip[t] <= Len(prog[t])
-            /\ startedAfterClose' = [startedAfterClose EXCEPT ![t] = closeReturned]
-            /\ Goto(t, CASE Op(t) = "close" -> "c0" [] Op(t) \in {"directOk", "directNo"} -> "d0"
-                         [] Op(t) = "next" -> "n0" [] OTHER -> "u0")
-            /\ UNCHANGED <<prog, mutex, closed, done, out>>
+Start(t, o) == /\ pcs[t] = "idle" /\ ncalls[t] < MaxCalls
+               /\ op' = [op EXCEPT ![t] = o] /\ ncalls' = [ncalls EXCEPT ![t] = @ + 1]
+               /\ startedAfterClose' = [startedAfterClose EXCEPT ![t] = closeReturned]
+               /\ closeCalled' = (closeCalled \/ o = "close")
+               /\ Goto(t, CASE o = "close" -> "c0" [] o = "directOk" -> "d1" [] o = "directNo" -> "d0"
+                            [] o = "next" -> "n0" [] OTHER -> "u0")
+               /\ UNCHANGED <<mutex, closed, done, out, wvars, subCancelled, watchCancelled, watchDone>>
 
-Lock(t, from, to) == pcs[t] = from /\ mutex = 0 /\ mutex' = t /\ Goto(t, to) /\ UNCHANGED <<prog, closed, done, out, startedAfterClose>>
+Same == UNCHANGED <<op, ncalls, closeCalled, startedAfterClose>>
+Lock(t, from, to) == /\ pcs[t] = from /\ mutex = 0 /\ mutex' = t /\ Goto(t, to) /\ Same
+                     /\ UNCHANGED <<closed, done, out, wvars, subCancelled, watchCancelled, watchDone>>
 
-C1(t) == /\ pcs[t] = "c1"
+(* ---- Close ---- *)
+C1(t) == /\ pcs[t] = "c1" /\ Same
          /\ IF closed
-            THEN /\ mutex' = IF FIXED THEN 0 ELSE mutex       \* pinned: returns with the mutex held
-                 /\ Return(t, "nil") /\ UNCHANGED closed
-            ELSE /\ closed' = TRUE /\ Goto(t, "c2") /\ UNCHANGED mutex
-         /\ UNCHANGED <<prog, done, out, startedAfterClose>>
-C2(t) == pcs[t] = "c2" /\ mutex' = 0 /\ Goto(t, "c3") /\ UNCHANGED <<prog, closed, done, out, startedAfterClose>>
-C3(t) == pcs[t] = "c3" /\ done' = TRUE /\ Return(t, "nil") /\ UNCHANGED <<prog, mutex, closed, out, startedAfterClose>>
+            THEN /\ mutex' = IF FIXED /\ UNLOCK = "code" THEN 0 ELSE mutex    \* pinned: returns with the mutex held
+                 /\ Goto(t, "cret") /\ UNCHANGED <<closed, subCancelled>>
+            ELSE /\ closed' = TRUE
+                 /\ IF Watcher THEN subCancelled' = TRUE /\ Goto(t, "c2") /\ UNCHANGED mutex          \* topicSub.Cancel()
+                    ELSE /\ mutex' = (IF UNLOCK = "code" THEN 0 ELSE mutex) /\ Goto(t, "c3") /\ UNCHANGED subCancelled
+         /\ UNCHANGED <<done, out, wvars, watchCancelled, watchDone>>
+C2(t) == /\ pcs[t] = "c2" /\ mutex' = (IF UNLOCK = "code" THEN 0 ELSE mutex) /\ Goto(t, "c3") /\ Same
+         /\ UNCHANGED <<closed, done, out, wvars, subCancelled, watchCancelled, watchDone>>
+C3(t) == /\ pcs[t] = "c3" /\ done' = TRUE /\ Goto(t, IF Watcher THEN "c4" ELSE "cret") /\ Same
+         /\ UNCHANGED <<mutex, closed, out, wvars, subCancelled, watchCancelled, watchDone>>
+C4(t) == /\ pcs[t] = "c4" /\ watchCancelled' = TRUE /\ Goto(t, "c5") /\ Same
+         /\ UNCHANGED <<mutex, closed, done, out, wvars, subCancelled, watchDone>>
+C5(t) == /\ pcs[t] = "c5" /\ watchDone /\ Goto(t, "cret") /\ Same
+         /\ UNCHANGED <<mutex, closed, done, out, wvars, subCancelled, watchCancelled, watchDone>>
+CRet(t) == /\ pcs[t] = "cret" /\ Return(t, "nil") /\ Same
+           /\ mutex' = IF UNLOCK = "deferred" /\ mutex = t THEN 0 ELSE mutex      \* a deferred Unlock runs at return
+           /\ UNCHANGED <<closed, done, out, wvars, subCancelled, watchCancelled, watchDone>>
 
-D0(t) == /\ pcs[t] = "d0"
-         /\ IF Op(t) = "directNo" THEN Return(t, "nil") ELSE Goto(t, "d1")
-         /\ UNCHANGED <<prog, mutex, closed, done, out, startedAfterClose>>
-D2(t) == /\ pcs[t] = "d2"
-         /\ IF closed THEN mutex' = 0 /\ Return(t, "closed") ELSE Goto(t, "d3") /\ UNCHANGED mutex
-         /\ UNCHANGED <<prog, closed, done, out, startedAfterClose>>
-D3(t) == pcs[t] = "d3" /\ mutex' = 0 /\ Goto(t, "d4") /\ UNCHANGED <<prog, closed, done, out, startedAfterClose>>
-D4(t) == /\ pcs[t] = "d4"
-         /\ \/ out = 0 /\ out' = 1 /\ Return(t, "nil") /\ UNCHANGED done
-            \/ done /\ Return(t, "closed") /\ UNCHANGED <<out, done>>
-         /\ UNCHANGED <<prog, mutex, closed, startedAfterClose>>
-N0(t) == /\ pcs[t] = "n0"
-         /\ \/ out = 1 /\ out' = 0 /\ Return(t, "msg") /\ UNCHANGED done
-            \/ done /\ Return(t, "closed") /\ UNCHANGED <<out, done>>
-         /\ UNCHANGED <<prog, mutex, closed, startedAfterClose>>
-U1(t) == pcs[t] = "u1" /\ mutex' = 0 /\ Return(t, "nil") /\ UNCHANGED <<prog, closed, done, out, startedAfterClose>>
+(* ---- Direct ---- *)
+D0(t) == /\ pcs[t] = "d0" /\ Return(t, "nil") /\ Same          \* peer not allowed: ignored
+         /\ UNCHANGED <<mutex, closed, done, out, wvars, subCancelled, watchCancelled, watchDone>>
+D2(t) == /\ pcs[t] = "d2" /\ mutex' = 0 /\ Same
+         /\ IF closed THEN Goto(t, "dclosed") /\ UNCHANGED wvars
+            ELSE \/ Goto(t, "ddup") /\ UNCHANGED wvars                 \* duplicate or not: Receiver.tla
+                 \/ /\ Goto(t, "d3")                                   \* passes: filtered addresses, re-published on the topic
+                    /\ IF Resend /\ Watcher /\ published < MaxMsgs
+                       THEN msgs' = msgs + 1 /\ published' = published + 1 /\ UNCHANGED <<wpc, restarts>> ELSE UNCHANGED wvars
+         /\ UNCHANGED <<closed, done, out, subCancelled, watchCancelled, watchDone>>
+DRet(t) == /\ pcs[t] \in {"dclosed", "ddup", "dsent"} /\ Return(t, IF pcs[t] = "dclosed" THEN "closed" ELSE "nil") /\ Same
+           /\ UNCHANGED <<mutex, closed, done, out, wvars, subCancelled, watchCancelled, watchDone>>
+D3(t) == /\ pcs[t] = "d3" /\ Goto(t, "d4") /\ Same             \* arrives at the select
+         /\ UNCHANGED <<mutex, closed, done, out, wvars, subCancelled, watchCancelled, watchDone>>
+D4(t) == /\ pcs[t] = "d4" /\ Same
+         /\ \/ out = 0 /\ out' = 1 /\ Return(t, "nil")                                                    \* into the buffer
+            \/ (\E r \in Receivers : Ret(t, "nil", [pcs EXCEPT ![r] = "ngot"])) /\ UNCHANGED out             \* straight to a receiver
+            \/ done /\ Return(t, "closed") /\ UNCHANGED out
+         /\ UNCHANGED <<mutex, closed, done, wvars, subCancelled, watchCancelled, watchDone>>
+(* ---- Next, UncacheCid ---- *)
+N0(t) == /\ pcs[t] = "n0" /\ Same
+         /\ \/ out = 1 /\ out' = 0 /\ Return(t, "msg") /\ UNCHANGED wpc
+            \/ (\E x \in SendersT : Ret(t, "msg", [pcs EXCEPT ![x] = "dsent"])) /\ UNCHANGED <<out, wpc>>     \* a sender's message follows
+            \/ wpc = "sel" /\ wpc' = "sent" /\ Return(t, "msg") /\ UNCHANGED out                              \* ... the watcher's
+            \/ done /\ Return(t, "closed") /\ UNCHANGED <<out, wpc>>
+         /\ UNCHANGED <<mutex, closed, done, msgs, published, restarts, subCancelled, watchCancelled, watchDone>>
+NGot(t) == /\ pcs[t] = "ngot" /\ Return(t, "msg") /\ Same
+           /\ UNCHANGED <<mutex, closed, done, out, wvars, subCancelled, watchCancelled, watchDone>>
+U1(t) == /\ pcs[t] = "u1" /\ mutex' = 0 /\ Goto(t, "uret") /\ Same
+         /\ UNCHANGED <<closed, done, out, wvars, subCancelled, watchCancelled, watchDone>>
+URet(t) == /\ pcs[t] = "uret" /\ Return(t, "nil") /\ Same
+           /\ UNCHANGED <<mutex, closed, done, out, wvars, subCancelled, watchCancelled, watchDone>>
 
-Step(t) == \/ Start(t) \/ Lock(t, "c0", "c1") \/ C1(t) \/ C2(t) \/ C3(t)
-           \/ D0(t) \/ Lock(t, "d1", "d2") \/ D2(t) \/ D3(t) \/ D4(t)
-           \/ N0(t) \/ Lock(t, "u0", "u1") \/ U1(t)
-Next == \E t \in Threads : Step(t)
-Spec == Init /\ [][Next]_vars /\ \A t \in Threads : WF_vars(Step(t))
+Step(t) == \/ \E o \in Ops : Start(t, o)
+           \/ Lock(t, "c0", "c1") \/ C1(t) \/ C2(t) \/ C3(t) \/ C4(t) \/ C5(t) \/ CRet(t)
+           \/ D0(t) \/ Lock(t, "d1", "d2") \/ D2(t) \/ DRet(t) \/ D3(t) \/ D4(t)
+           \/ N0(t) \/ NGot(t) \/ Lock(t, "u0", "u1") \/ U1(t) \/ URet(t)
 
-AllDone == \A t \in Threads : pcs[t] = "idle" /\ ip[t] > Len(prog[t])
-(* every call returns once a Close has returned (the initial condition guarantees a Close is called) *)
-Termination == <>AllDone
-InCritical(t) == pcs[t] \in {"c1", "c2", "d2", "d3", "u1"}
+(* ---- the pubsub watcher ---- *)
+TU == UNCHANGED <<pcs, op, ncalls, res, closeCalled, closeReturned, startedAfterClose>>
+WGoto(l) == wpc' = l
+(* a message is published on the topic (environment) *)
+Publish == /\ Watcher /\ ~Resend /\ published < MaxMsgs /\ published' = published + 1 /\ msgs' = msgs + 1 /\ TU
+           /\ UNCHANGED <<mutex, closed, done, out, wpc, restarts, subCancelled, watchCancelled, watchDone>>
+WLoop == /\ wpc \in {"loop", "gotno", "dup", "sent"} /\ WGoto("next") /\ TU       \* gotno: undecodable, re-published by this host, or peer not allowed
+         /\ UNCHANGED <<mutex, closed, done, out, msgs, published, restarts, subCancelled, watchCancelled, watchDone>>
+WMsg == /\ wpc = "next" /\ msgs > 0 /\ msgs' = msgs - 1 /\ (WGoto("got") \/ WGoto("gotno")) /\ TU     \* from an allowed peer, or not
+        /\ UNCHANGED <<mutex, closed, done, out, published, restarts, subCancelled, watchCancelled, watchDone>>
+WNextExit == /\ wpc = "next" /\ (subCancelled \/ watchCancelled) /\ WGoto("done") /\ watchDone' = TRUE /\ TU
+             /\ UNCHANGED <<mutex, closed, done, out, msgs, published, restarts, subCancelled, watchCancelled>>
+WErr == /\ wpc = "next" /\ restarts < MaxRestarts /\ restarts' = restarts + 1 /\ WGoto("r1") /\ TU
+        /\ UNCHANGED <<mutex, closed, done, out, msgs, published, subCancelled, watchCancelled, watchDone>>
+WLock(from, to) == /\ wpc = from /\ mutex = 0 /\ mutex' = W /\ WGoto(to) /\ TU
+                   /\ UNCHANGED <<closed, done, out, msgs, published, restarts, subCancelled, watchCancelled, watchDone>>
+WCheck == /\ wpc = "check" /\ mutex' = 0 /\ TU
+          /\ IF closed THEN WGoto("closed") ELSE (WGoto("send") \/ WGoto("dup"))
+          /\ UNCHANGED <<closed, done, out, msgs, published, restarts, subCancelled, watchCancelled, watchDone>>
+WSend == /\ wpc = "send" /\ WGoto("sel") /\ TU
+         /\ UNCHANGED <<mutex, closed, done, out, msgs, published, restarts, subCancelled, watchCancelled, watchDone>>
+WSel == /\ wpc = "sel" /\ UNCHANGED <<op, ncalls, res, closeCalled, closeReturned, startedAfterClose>>
+        /\ \/ out = 0 /\ out' = 1 /\ WGoto("next") /\ UNCHANGED <<pcs, watchDone>>
+           \/ (\E r \in Receivers : pcs' = [pcs EXCEPT ![r] = "ngot"]) /\ WGoto("next") /\ UNCHANGED <<out, watchDone>>
+           \/ (done \/ watchCancelled) /\ WGoto("done") /\ watchDone' = TRUE /\ UNCHANGED <<out, pcs>>
+        /\ UNCHANGED <<mutex, closed, done, msgs, published, restarts, subCancelled, watchCancelled>>
+WClosedExit == /\ wpc = "closed" /\ WGoto("done") /\ watchDone' = TRUE /\ TU
+               /\ UNCHANGED <<mutex, closed, done, out, msgs, published, restarts, subCancelled, watchCancelled>>
+(* restart: the old subscription is cancelled and a new one made, under the mutex *)
+WRestart == /\ wpc = "r2" /\ mutex' = 0 /\ subCancelled' = FALSE /\ WGoto("loop") /\ TU
+            /\ UNCHANGED <<closed, done, out, msgs, published, restarts, watchCancelled, watchDone>>
+
+WStep == WLoop \/ WMsg \/ WNextExit \/ WErr \/ WLock("got", "check") \/ WCheck \/ WSend \/ WSel
+         \/ WClosedExit \/ WLock("r1", "r2") \/ WRestart
+
+Next == (\E t \in Threads : Step(t)) \/ WStep \/ Publish
+Spec == Init /\ [][Next]_vars /\ (\A t \in Threads : WF_vars(Step(t))) /\ WF_vars(WStep)
+
+AllDone == /\ \A t \in Threads : pcs[t] = "idle" /\ ncalls[t] = MaxCalls
+           /\ wpc \in {"none", "done"}
+(* once a Close is called, every call returns -- the calls still to be made included -- and the watcher exits *)
+Termination == (<>closeCalled) => <>AllDone
+InCritical(t) == IF t = W THEN wpc \in {"check", "r2"}
+                 ELSE pcs[t] \in {"c1", "c2", "d2", "u1"} \/ (UNLOCK = "deferred" /\ pcs[t] \in {"c3", "c4", "c5", "cret"})
 MutexReleased == mutex # 0 => InCritical(mutex)
 ResultsOK ==
   \A t \in Threads : \A i \in 1..Len(res[t]) :
